@@ -41,9 +41,19 @@ def run(ck):
                 return own
             return None
         return atom
-    runs = [n for n in pm.calls() if name_is(n.get("callee"), "process") and skip_copies(n.get("obj")).get("k") == "this"]
+    def on_this(n):
+        """the call is made on the logger itself: `this`, or a pointer parameter of a spliced file-local helper that was passed `this`"""
+        o = n.get("obj")
+        if not isinstance(o, dict):
+            return False
+        o = skip_copies(o)
+        if o.get("k") == "this":
+            return True
+        o = skip_copies(deref_local(pm, unwrap_ptr(o)))
+        return isinstance(o, dict) and o.get("k") == "this"
+    runs = [n for n in pm.calls() if name_is(n.get("callee"), "process") and on_this(n)]
     ck.require(len(runs) == 1, "processMessage runs the pipeline %d times" % len(runs))
-    flushes = [n for n in pm.calls() if name_is(n.get("callee"), (SPL + "::flush",)) and skip_copies(n.get("obj")).get("k") == "this"]
+    flushes = [n for n in pm.calls() if name_is(n.get("callee"), (SPL + "::flush",)) and on_this(n)]
     # the fatal message itself must be processed: in synchronous mode no path from entry to a return avoids the pipeline run
     path_ok = {}
     for t_name, t_val in sorted({e["name"]: e["value"] for e in en["enumerators"]}.items()):
